@@ -18,14 +18,19 @@ fn lexeme(d: &Delims) -> BoxedStrategy<String> {
         delims.push(format!("{s}-"));
         delims.push(format!("-{s}"));
         let c: Vec<char> = s.chars().collect();
+        if c.is_empty() {
+            continue;
+        }
         delims.push(c[0].to_string());
         if c.len() > 1 {
             delims.push(c[1].to_string());
         } else {
             // half of a two-byte character cannot be spelled in valid UTF-8: use a neighbour instead
             let b = s.as_bytes();
-            if let Ok(n) = String::from_utf8(vec![b[0], b[1] ^ 1]) {
-                delims.push(n);
+            if b.len() == 2 {
+                if let Ok(n) = String::from_utf8(vec![b[0], b[1] ^ 1]) {
+                    delims.push(n);
+                }
             }
         }
     }
@@ -306,7 +311,9 @@ pub fn all_shapes(tier: Tier) -> Vec<Shape> {
 // ------------------------------------------------------------------------------------------
 // worker side
 
-const INPROC: &[&str] = &["soup", "soup_custom_delimiters", "mutate", "truncate", "names"];
+const INPROC: &[&str] = &["soup", "soup_custom_delimiters", "any_delimiters", "mutate", "truncate", "names"];
+/// delimiter candidates of every length and shape: whatever `set_delimiters` accepts must then be safe to use
+const DELIM_CANDIDATES: &[&str] = &["", "#", "{", "}", "%", "{{", "}}", "{%", "%}", "{#", "#}", "<<", ">>", "[[", "]]", "\u{e9}", "\u{e9}\u{e9}", "\u{65e5}", "ab", "abc", "  ", "--", "{-", "-}", "\u{a0}\u{a0}", "<!--", "-->", "$$", "\u{1f600}", "{{{", "#}}"];
 
 pub fn worker(w: &WorkerArgs) -> i32 {
     std::env::set_var("VERIF_WORKERS", "1");
@@ -323,6 +330,15 @@ pub fn worker(w: &WorkerArgs) -> i32 {
             w.trace_case(|| json!({"source": s, "delimiters": d.json()}));
             l.label("delims:custom");
             check_source("t", s, Some(d), "soup_custom_delimiters", l)
+        }),
+        "any_delimiters" => run_family(&rep, &fam, quick(300_000), || prop::collection::vec(prop_oneof![4 => prop::sample::select(DELIM_CANDIDATES.iter().copied().filter(|c| c.len() == 2).collect::<Vec<_>>()), 1 => prop::sample::select(DELIM_CANDIDATES)], 6).prop_map(|v| Delims { bs: v[0].into(), be: v[1].into(), vs: v[2].into(), ve: v[3].into(), cs: v[4].into(), ce: v[5].into() }).prop_flat_map(|d| (soup(d.clone()), prop::sample::select(vec!["", "x", " {# c #} ", "{# c #}{{ a }}{% if a %}b{% endif %}", "\u{e9}{#-c-#}\u{65e5}"]), Just(d))), |(s, extra, d), l| {
+            // the comment/tag spellings of `extra` are re-spelled with the candidate delimiters
+            let extra = extra.replace("{#", &d.cs).replace("#}", &d.ce).replace("{{", &d.vs).replace("}}", &d.ve).replace("{%", &d.bs).replace("%}", &d.be);
+            let src = format!("{s}{extra}");
+            w.trace_case(|| json!({"source": src, "delimiters": d.json()}));
+            let accepted = guard(|| tera::Tera::new().set_delimiters(d.tera()).is_ok()).unwrap_or(false);
+            l.label(if accepted { "delims:arbitrary-accepted" } else { "delims:arbitrary-refused" });
+            check_source("t", &src, Some(d), "any_delimiters", l)
         }),
         "mutate" => {
             let seeds = seed_sources();
@@ -451,7 +467,7 @@ pub fn run(rep: &Report) {
         let sig = if sh.kind == "chain" { format!("C06/stack-overflow/chain:{}", sh.form) } else { format!("C06/crash/{}:{}", sh.kind, sh.form) };
         rep.fail(Fail::new(sig, format!("registering the {} shape `{}` of size {} : worker {desc}", sh.kind, sh.form, sh.n), case));
     });
-    for (lab, min) in [("outcome:accepted", 50_000), ("outcome:syntax-error", 500_000), ("input:multibyte", 200_000), ("delims:custom", 100_000), ("prefix", 20_000), ("shape:nest", 200), ("shape:flat", 30), ("shape:chain", 12)] {
+    for (lab, min) in [("outcome:accepted", 50_000), ("outcome:syntax-error", 500_000), ("input:multibyte", 200_000), ("delims:custom", 100_000), ("delims:arbitrary-accepted", 5_000), ("delims:arbitrary-refused", 50_000), ("prefix", 20_000), ("shape:nest", 200), ("shape:flat", 30), ("shape:chain", 12)] {
         rep.floor(lab, min);
     }
 }
